@@ -291,6 +291,10 @@ func main() {
 	rep := report.New("C13", "exploration")
 	rep.Rule = "a real playing RTSP/TCP session over an in-memory connection: every schedule within the deviation bound of the delivery goroutine (prefix write + payload write per packet, each through the buffered connection and the rate-limiter answer) against the request-handling goroutine answering OPTIONS / repeated PLAY / GET_PARAMETER, with up to E non-default limiter answers; the client-side byte stream is parsed by an independent RTSP/interleaved parser; distinct = distinct (scenario, frames, responses) outcomes"
 	rep.Assumptions = []string{"sequentially consistent memory", "the handshake (DESCRIBE, SETUP, SETUP, PLAY) runs under the default schedule; only the playing phase is explored"}
+	runner.FineP = 1 // statement-level points in the files of fine.txt
+	if rep.Thorough() {
+		runner.FineP = 1
+	}
 	runner.Run(rep, scenarios(rep.Thorough()))
 	rep.Finish()
 }
